@@ -13,6 +13,7 @@ def chain_reset_touches : List String := ["Meta", "Request", "Writer", "base", "
 def chain_reset_untouched : List String := ["handlers", "workPolicy"]
 def chain_resetwire_touches : List String := ["Meta", "Request", "Writer", "base", "count", "detachCleanup", "handoff", "inlineOnly", "pos", "replay"]
 def chain_resetwire_untouched : List String := ["handlers", "reqStorage", "workPolicy"]
+def dnsclient_defer_and_branch_release : List Nat := []
 def edns_servedns_slot_unreset : List Nat := []
 def edns_servewire_slot_unreset : List Nat := []
 def grouplookup_copies_when_shared : Bool := true
